@@ -1,20 +1,25 @@
-"""A property check = optional Engine-X part + optional Engine-S part."""
+"""A property check = optional Engine-X part(s) + optional Engine-S part."""
 from . import _x, _s, sprops
 from xeng import driver
 
 
-def run(out, prop, x_corpora=(), s_props=None, level=None, x_kwargs=None):
-    """x_corpora: list of (corpus_fn, name) ; s_props: obligations of which properties count for this check"""
-    has_x = bool(x_corpora)
+def run(out, prop, x=(), s_props=None, level=None):
+    """x: list of dict(fn=corpus_fn, name=str, unimock=bool, tests=bool, kani_extra=(), compile_violation=bool, compile_only=bool)"""
+    has_x = bool(x)
     sl = sprops.slices_for(prop, out.tier) if s_props is not None else []
     out.level = level or ('model_checking' if has_x else 'other')
-    for corpus_fn, name in x_corpora:
-        corpus = corpus_fn(out.tier, out.seed)
-        st = driver.run_corpus(out, corpus, f'x_{name}_{out.tier}', **(x_kwargs or {}))
+    for spec in x:
+        corpus = spec['fn'](out.tier, out.seed)
+        if spec.get('filter'):
+            corpus = [p for p in corpus if spec['filter'](p)]
+        st = driver.run_corpus(out, corpus, f"x_{spec['name']}_{out.tier}", unimock_feature=spec.get('unimock', False), tests=spec.get('tests', False),
+                               kani_extra=spec.get('kani_extra', ()), compile_failure_is_violation=spec.get('compile_violation', False),
+                               compile_only=spec.get('compile_only', False))
         _x.merge_x(out, st, corpus)
     if sl:
         _s.run_s(out, sl, s_props or [prop])
-    if not has_x:
-        c = out.coverage
-        c.setdefault('states', max(1, c.get('s_paths', 0)))
-        c.setdefault('transitions', max(1, c.get('obligations', 0)))
+    c = out.coverage
+    c.setdefault('states', max(1, c.get('s_paths', 0)))
+    c.setdefault('transitions', max(1, c.get('obligations', 0)))
+    c.setdefault('traces_validated_against_impl', 0)
+    c.setdefault('samples', [dict(note='no sample recorded')])
